@@ -56,6 +56,14 @@ CLAIMS = {
          "certifies that the constructive action (cofactor matrix on hyperplanes, adj^T Q adj on quadrics) commutes with join/meet "
          "and preserves incidence/tangency/cross ratio; geometer is replayed on both sides of each equation.",
     design="5/C07", technique="TLC enumeration with commutation invariants + replay of both sides in geometer"),
+ "C08": dict(
+    text="C08_Constructors.tla gives the exact integer matrix (up to scale) of every constructor: lattice translations, "
+         "Pythagorean rotations of the plane (+2 pi k), Rodrigues rotations about rational-length axes in every octant (both "
+         "handedness candidates, one consistent choice required), scalings, Householder reflections in every lattice line/plane, "
+         "projective frame maps by adjugates, conic frame maps; TLC certifies them against the Euclidean definitions on lattice "
+         "points (adds the offset, isometry of positive determinant fixing the axis with trace 1+2cos and additive composition, "
+         "involution fixing the mirror pointwise = mirror image, maps each frame point); geometer's matrices and images are compared.",
+    design="5/C08", technique="TLC enumeration of constructor arguments with definitional invariants + replay of matrices and images"),
 }
 
 checks = []
